@@ -251,7 +251,11 @@ class Application(ApplicationServiceElement, Collector):
                 self.localAddress = Address(localAddress)
 
         # use the provided cache or make a default one
-        self.deviceInfoCache = deviceInfoCache or DeviceInfoCache()
+        # use the cache that was provided, it is usually still empty at this
+        # point and, if it is a container, false
+        if deviceInfoCache is None:
+            deviceInfoCache = DeviceInfoCache()
+        self.deviceInfoCache = deviceInfoCache
 
         # controllers for managing confirmed requests as a client
         self.controllers = {}
